@@ -53,10 +53,13 @@ func newEngineStore(kind string, base []ast.Atom) factstore.FactStore {
 	case "merged":
 		ro := factstore.NewMultiIndexedArrayInMemoryStore()
 		w := factstore.NewMultiIndexedArrayInMemoryStore()
+		// the layers are kept disjoint, as the documentation of MergedStore advises
 		for i, a := range base {
 			if i%2 == 0 {
-				ro.Add(a)
-			} else {
+				if !w.Contains(a) {
+					ro.Add(a)
+				}
+			} else if !ro.Contains(a) {
 				w.Add(a)
 			}
 		}
